@@ -30,6 +30,21 @@
 (* is how sharply a float determines a rational: on large-offset lattices and    *)
 (* for float32 data an observation may be an INTERVAL (SObsEqI), and the         *)
 (* clipping test is specified up to the tolerance c.tol (SClipKeepT).            *)
+(*                                                                               *)
+(* Two more fields that NO expectation reads (round 3):                           *)
+(*   `pr`  the PRINTING / VERBOSITY options of the call (entry point get_stats or  *)
+(*         print_stats, doprint, nsigma_print = the multiple of the error the      *)
+(*         printed table shows, verbose, silent): what is printed is not part of   *)
+(*         the statement and printing does not change a returned value.  The one   *)
+(*         clause that reads it: an entry point that only prints may return        *)
+(*         nothing (SGstatsFailing, o.ret).                                        *)
+(*   `K`, `lay`  SCALE: the arrays handed to the code are K replicas of the        *)
+(*         pattern (x, w) of the case, laid out tiled / in blocks / shuffled.      *)
+(*         SScaleLaw (checked by TLC in StatsMC.tla on every pattern, K <= 3)      *)
+(*         is why such a case is decided by the pattern alone: median, mean,       *)
+(*         deviation, min and max are those of the pattern, every error-type       *)
+(*         output squared is 1/K of the pattern's (the harness records it in       *)
+(*         units of 1/K).                                                          *)
 (* All operators are prefixed with S (Hist.tla is extended next to this module). *)
 EXTENDS VU
 
@@ -108,6 +123,28 @@ SWMedian(x, w) ==
 SMedInit(x, w)     == [k |-> 1, sum |-> SSumW(w, DOMAIN x) - w[SSortPos(x, DOMAIN x)[1]]]
 SMedGoesOn(x, w, st) == 2 * st.sum > SSumW(w, DOMAIN x)
 SMedStep(x, w, st) == [k |-> st.k + 1, sum |-> st.sum - w[SSortPos(x, DOMAIN x)[st.k + 1]]]
+
+\* ---- SCALE: K replicas of a pattern -----------------------------------------------------
+\* tiled: x1..xn x1..xn ... ; in blocks: x1 (K times) x2 (K times) ... (any other layout is a permutation of these:
+\* no definition above depends on the order of the positions - the statistics are sums over a set, the median sorts)
+STile(x, K)  == [i \in 1..(K * Len(x)) |-> x[((i - 1) % Len(x)) + 1]]
+SBlock(x, K) == [i \in 1..(K * Len(x)) |-> x[((i - 1) \div K) + 1]]
+\* the statistics of K replicas from those of the pattern: cumulative weight reaches half the total at the same sorted
+\* value; same mean / deviation / extremes; squared errors (all three conventions) divided by K
+\* (Mus: supplied means about which the moments may be taken)
+SScaleLawOn(x, w, X, Wt, K, Mus) ==
+    LET P == DOMAIN x   Q == DOMAIN X   m == SMean(x, w, P)
+    IN /\ SWMedian(X, Wt) = SWMedian(x, w)
+       /\ \A mu \in Mus : /\ SVarAbout(X, Wt, Q, mu) = SVarAbout(x, w, P, mu)
+                           /\ RMul(SErr2Calc(X, Wt, Q, mu), RInt(K)) = SErr2Calc(x, w, P, mu)
+       /\ SMean(X, Wt, Q) = m /\ SVar(X, Wt, Q) = SVar(x, w, P)
+       /\ SMinOf(X, Q) = SMinOf(x, P) /\ SMaxOf(X, Q) = SMaxOf(x, P)
+       /\ RMul(SErr2Calc(X, Wt, Q, m), RInt(K)) = SErr2Calc(x, w, P, m)
+       /\ RMul(SErr2Inv(Wt, Q), RInt(K)) = SErr2Inv(w, P)
+       /\ RMul(SErr2Plain(X, Q), RInt(K)) = SErr2Plain(x, P)
+       /\ SVar(X, SOnes(Len(X)), Q) = SVar(x, SOnes(Len(x)), P) /\ SMean(X, SOnes(Len(X)), Q) = SMean(x, SOnes(Len(x)), P)
+SScaleLaw(x, w, K, Mus) == /\ SScaleLawOn(x, w, STile(x, K), STile(w, K), K, Mus)
+                           /\ SScaleLawOn(x, w, SBlock(x, K), SBlock(w, K), K, Mus)
 
 \* ---- sigma clipping -------------------------------------------------------------------
 \* c = [x, w : Seq(Int), hasw : BOOLEAN, nsn, nsd : Nat (nsig = nsn/nsd), niter : Nat, tol : <<p, q>> (see SClipKeepT)]
@@ -277,7 +314,11 @@ SInterpFailing(c, o) ==
 \* c = [mode : {"plain","weights","clip"}, x : Seq(columns), w : Seq(columns) (one column = shared),
 \*      calcerr : BOOLEAN (weights mode: FALSE when calcerr=False was passed),
 \*      hasw, nsn, nsd, niter (clip mode; one column)]
-\* o = [err, mean, var, err2, err2i, min, max : Seq(obs real)]
+\*      pr : [entry : {"get_stats", "print_stats"}, doprint, verbose, silent : BOOLEAN, nsp : <<p, q>>] - printing options:
+\*           read by no clause but the first one below (stdout / stderr are not observed)]
+\* o = [err, ret : {"dict", "none"}, mean, var, err2, err2i, min, max : Seq(obs real)]
+\*   ret = "none": the call returned nothing - allowed for the entry point whose job is to print (its docstring promises
+\*   the statistics, the statement does not name it); whatever IS returned is judged by the same clauses as get_stats
 SGsClipCase(c) == [x |-> c.x[1], w |-> c.w[1], hasw |-> c.hasw, nsn |-> c.nsn, nsd |-> c.nsd, niter |-> c.niter, tol |-> c.tol]
 SGstatsCol(c, o, j) ==
     LET x == c.x[j]  P == DOMAIN x  w == IF c.mode = "plain" THEN SOnes(Len(x)) ELSE SWCol(c, j)
@@ -291,6 +332,7 @@ SGstatsCol(c, o, j) ==
        (IF SObsEqI(o.max[j], RInt(SMaxOf(x, P))) THEN {} ELSE {"max"})
 SGstatsFailing(c, o) ==
     IF o.err # "none" THEN {"unexpected_error"}
+    ELSE IF o.ret = "none" THEN (IF c.pr.entry = "print_stats" THEN {} ELSE {"nothing_returned"})
     ELSE IF \E f \in {o.mean, o.var, o.err2, o.err2i, o.min, o.max} : Len(f) # Len(c.x) THEN {"shape"}
     ELSE IF c.mode # "clip" THEN UNION {SGstatsCol(c, o, j) : j \in 1..Len(c.x)}
     ELSE LET cc == SGsClipCase(c)
